@@ -1,0 +1,34 @@
+//go:build verif
+
+// Contracts for the deductive verification machinery in /verif (comment-only; compiled only with -tags=verif).
+package store
+
+// ---------------------------------------------------------------------------
+// C02 / C12 / C18: seek keys and prefixes of the change log, the latest index and the json index: the byte layouts
+// the writers in internal/server use (class id, then the fields at the offsets of the key family)
+
+//@ unit store.SeekChanges
+//@   prop C02
+//@   ensures [change-log-seek-key-layout] len(result) == 14 && encBE16(result, 0) == 4 && encBE32(result, 2) == datasetID && encBE64(result, 6) == since
+//@   modifies none
+//@   safe slice
+//@ unit store.SeekDataset
+//@   prop C02
+//@   ensures [change-log-prefix-layout] len(result) == 6 && encBE16(result, 0) == 4 && encBE32(result, 2) == datasetID
+//@   modifies none
+//@   safe slice
+//@ unit store.SeekLatestChanges
+//@   prop C12
+//@   ensures [latest-index-prefix-layout] len(result) == 6 && encBE16(result, 0) == 8 && encBE32(result, 2) == datasetID
+//@   modifies none
+//@   safe slice
+//@ unit store.SeekEntityChanges
+//@   prop C12
+//@   ensures [json-index-seek-key-layout] len(result) == 14 && encBE16(result, 0) == 1 && encBE64(result, 2) == entityID && encBE32(result, 10) == datasetID
+//@   modifies none
+//@   safe slice
+//@ unit store.SeekEntity
+//@   prop C12
+//@   ensures [json-index-prefix-layout] len(result) == 10 && encBE16(result, 0) == 1 && encBE64(result, 2) == intenalEntityID
+//@   modifies none
+//@   safe slice
